@@ -171,6 +171,26 @@ MemberSound ==
               full |-> IF Full THEN {[d |-> Desc(p, ExactE(meta, np, p.e)), h |-> PLeaf(p.e), i |-> p.e.idx, p |-> p.e.proof] : p \in ps}
                        ELSE {}]))
 
+\* A v1 block supplement presents SEVERAL elements at once (per transaction: siacoin inputs, siafund
+\* inputs, revised contracts, storage-proof contracts; per block: expiring contracts); the same ID may
+\* occur more than once.  validateSupplement accepts the list iff EVERY entry, on its own, is a member:
+\* no entry may ride on another entry with the same id.  Placement therefore must not matter: with g the
+\* genuine leaf and p any probe derived from it,  <<g, p>> and <<p, g>> are acceptable iff p is exact.
+\* (Checked in the Full configurations; the harness applies the placements -- same list, later
+\* transaction, other list, forged first, and the forged copy as the parent actually spent -- to every
+\* probe whose id a genuine element has.)
+SuppAccept(a, es) == \A i \in 1..Len(es) : MemberE(a, es[i])
+SupplementSound ==
+  Full =>
+    \A hs \in {HashesOf(meta)} :
+      \A np \in {[i \in 0..(acc.n - 1) |-> NaivePath(hs, i)]} :
+        \A p \in Probes :
+          p.src = "L" =>
+            LET i == p.b
+                g == [id |-> meta[i + 1].id, ver |-> meta[i + 1].ver, f |-> 0, idx |-> i, spent |-> meta[i + 1].spent, proof |-> client[i]]
+            IN /\ SuppAccept(acc, <<g, p.e>>) <=> ExactE(meta, np, p.e)
+               /\ SuppAccept(acc, <<p.e, g>>) <=> ExactE(meta, np, p.e)
+
 -----------------------------------------------------------------------------
 (* ------------------------------ behaviour -------------------------------- *)
 \* A block spends the leaves S, revises the leaves R and creates k elements with fresh ids.
